@@ -499,7 +499,14 @@ func execDecApi(args []string) string {
 			if _, ok := dapiCtxOp(op); ok {
 				continue
 			}
-			k, err := strconv.Atoi(strings.TrimPrefix(op, "rst"))
+			spec := strings.TrimPrefix(op, "rst")
+			if i := strings.IndexByte(spec, '/'); i >= 0 {
+				if sz, err := strconv.Atoi(spec[i+1:]); err != nil || sz < 0 || sz > 1<<24 {
+					return "bad-op"
+				}
+				spec = spec[:i]
+			}
+			k, err := strconv.Atoi(spec)
 			if !strings.HasPrefix(op, "rst") || err != nil || k < 1 || k >= len(streams) {
 				return "bad-op"
 			}
@@ -628,10 +635,15 @@ func dapiOne(dec *decoder.Decoder, rd **bytes.Reader, op string, o dapiOpts, fac
 			return fmt.Sprintf("err:%s:%d", dapiErr(err), n), false
 		}
 		return fmt.Sprintf("ok:%d", n), false
-	default: // rst<k>
-		k, _ := strconv.Atoi(op[3:])
+	default: // rst<k> or rst<k>/<size>: Reset onto reader k with the line's options (and WithReadBufferSize(size))
+		spec, o2 := op[3:], o
+		if i := strings.IndexByte(spec, '/'); i >= 0 {
+			o2.rbs, _ = strconv.Atoi(spec[i+1:])
+			spec = spec[:i]
+		}
+		k, _ := strconv.Atoi(spec)
 		*rd = bytes.NewReader(streams[k])
-		dec.Reset(ctl.reader(*rd), o.options(fac, lis, ctl)...)
+		dec.Reset(ctl.reader(*rd), o2.options(fac, lis, ctl)...)
 		return "ok", false
 	}
 }
@@ -1108,6 +1120,9 @@ func dapiRandOps(rng *Rng, maxLen int, nreaders int) string {
 		default:
 			if nreaders > 0 {
 				ops[i] = fmt.Sprintf("rst%d", 1+rng.Intn(nreaders))
+				if rng.Intn(3) == 0 { // Reset with another read buffer size than the decoder had (the buffer is re-sliced or re-allocated)
+					ops[i] += fmt.Sprintf("/%d", []int{0, 1, 764, 765, 766, 1000, 1531, 4096, 4608, 5000, 9000, 70000}[rng.Intn(12)])
+				}
 			} else {
 				ops[i] = "dec"
 			}
@@ -1517,6 +1532,23 @@ func genDecHist(emit func(string), tier string, rng *Rng) {
 				emit(dapiLine("dechist", opt, fac, ops, [][]byte{stream}))
 				count(fmt.Sprintf("overrun-by-%d", min(k, 4)))
 			}
+		}
+	}
+	// CheckIntegrity after other calls on the same decoder (peeked header, peeked file id, Next, a consumed sequence), on
+	// chains cut at every offset: its verdict is C04's subject, but what it does to the decoder — and that a peek before it
+	// does not change what it finds — shows in the model correspondence and in the calls that follow the re-seek
+	for i := 0; i < 12*scale; i++ {
+		opt, fac := dapiOptString(rng), dapiFacString(dapiRandFactory(rng))
+		whole := append(dapiRandSeq(rng, 0, true), dapiRandSeq(rng, 0, rng.Bool())...)
+		step := 1
+		if len(whole) > 90 {
+			step = 1 + len(whole)/90
+		}
+		for cut := 0; cut <= len(whole); cut += step {
+			pre := []string{"pkh", "pki", "nxt", "pkh,pki", "nxt,pkh", "dec", "dis", "pki,dis", "dec,pkh", "dec,nxt", "dis,pki"}[rng.Intn(11)]
+			post := []string{"dec", "pkh", "pki,dec", "dec,dec", "nxt,dec"}[rng.Intn(5)]
+			emit(dapiLine("dechist", opt, fac, pre+",ci,"+post, [][]byte{whole[:cut]}))
+			count("peek-then-integrity-check-on-cut-chain")
 		}
 	}
 	// failing integrity check in the middle of a chain, then decoding from the start again
